@@ -82,7 +82,7 @@ func C03(c *Case) *Result {
 	fam := t.Pick(4, 3, 3, 1, 1, 1)
 	if c.Thorough() && t.Intn(60) == 0 {
 		fam = 6
-	} else if !c.Thorough() && c.Index%2000 == 7 {
+	} else if !c.Thorough() && c.Index%250 == 7 {
 		fam = 6 // a few instances of the large-BWT family in quick
 	}
 	res.Render["family"] = []string{"mutate-codec-data", "forge-container", "forge-header", "truncate+tail", "random", "splice", "big-bwt-index"}[fam]
